@@ -15,6 +15,29 @@ Ltac inv_bind :=
   | H : Err _ = Ok _ |- _ => discriminate H
   end.
 
+(* step through a monadic definition that is known to succeed: every guard becomes a boolean fact,
+   every bound call an equation *)
+Ltac mstep H :=
+  match type of H with
+  | bind (guard ?b ?e) _ = Ok _ =>
+    let G := fresh "G" in destruct b eqn:G; cbn [guard bind] in H; [|discriminate H]
+  | bind (guard_nz ?d) _ = Ok _ => unfold guard_nz in H at 1; mstep H
+  | bind ?m _ = Ok _ =>
+    let a := fresh "v" in let B := fresh "B" in destruct m as [a|] eqn:B; cbn [bind] in H; [|discriminate H]
+  end.
+
+Ltac bprop :=
+  repeat match goal with
+  | H : negb _ = true |- _ => apply negb_true_iff in H
+  | H : negb _ = false |- _ => apply negb_false_iff in H
+  | H : (_ =? _)%Z = true |- _ => apply Z.eqb_eq in H
+  | H : (_ =? _)%Z = false |- _ => apply Z.eqb_neq in H
+  | H : (_ >? _)%Z = true |- _ => apply Z.gtb_lt in H
+  | H : (_ >? _)%Z = false |- _ => rewrite Z.gtb_ltb in H; apply Z.ltb_ge in H
+  | H : (_ && _) = true |- _ => apply andb_true_iff in H; destruct H
+  | H : (_ || _) = false |- _ => apply orb_false_iff in H; destruct H
+  end.
+
 Section Generic.
 Context {F : Type} `{NF : Num F}.
 
